@@ -5,8 +5,11 @@ sys.path.insert(0, os.path.dirname(os.path.abspath(__file__)))
 VERIF = os.path.dirname(os.path.dirname(os.path.abspath(__file__)))
 ALL = ['C%02d' % i for i in range(1, 21)]
 checks, na = [], []
+ENABLED = open(os.path.join(VERIF, 'tools', 'props', 'ENABLED')).read().split()
 for pid in ALL:
     try:
+        if pid not in ENABLED:
+            raise ModuleNotFoundError(pid)
         m = importlib.import_module('props.' + pid)
     except ModuleNotFoundError:
         na.append({'property_id': pid, 'reason': 'check not built yet in this round (planned in DESIGN.md §7.%s); not claimed' % pid})
